@@ -85,6 +85,7 @@ func buildC16(c *core.Ctx, idx int) []c16Op {
 		lo := int64(r.Intn(int(mx) + 1))
 		return model.And(model.Cmp(">=", model.ColOp("k"), model.LitOp(proto.Int(lo))), model.Cmp("<", model.ColOp("k"), model.LitOp(proto.Int(lo+int64(span)))))
 	}
+	wide := idx%4 == 2
 	steps := 0
 	for {
 		done := true
@@ -109,9 +110,19 @@ func buildC16(c *core.Ctx, idx int) []c16Op {
 		case x < 8:
 			u := h.Update(t)
 			u.Where = rng(t, r.Range(1, 10))
+			if wide && r.Chance(1, 3) {
+				// a statement that changes 40-80 pages: with a cache just
+				// above that, the cold end of the cache is one long run of
+				// changed pages while it runs
+				u.Where = rng(t, r.Range(150, 320))
+			}
 			push(u)
 		default:
-			push(&proto.Stmt{Kind: "delete", Table: t.Name, Where: rng(t, r.Range(1, 12))})
+			span := r.Range(1, 12)
+			if wide && r.Chance(1, 4) {
+				span = r.Range(150, 300)
+			}
+			push(&proto.Stmt{Kind: "delete", Table: t.Name, Where: rng(t, span)})
 		}
 		// observation: full scan of a table, a filtered scan, a catalog scan
 		qt := h.DB.Tables[r.Intn(len(h.DB.Tables))]
@@ -161,7 +172,7 @@ func rowsKey(r *proto.Res) string {
 }
 
 func checkC16(c *core.Ctx) []core.Floor {
-	c.Rule = "seeded workloads over 2-4 tables of 200-500 rows (quick) / 300-2000 rows (thorough) (inserts <= 40 rows, updates/deletes over <= 12 consecutive keys, full scans, filtered scans, catalog scans), dirty pages flushed after every statement; run once with the default cache (10000 pages), measuring the largest per-statement dirty set and the tree height, then with small capacities chosen above that dirty set (precondition of the property guaranteed by construction); every statement outcome, every SELECT result (with row ids) and the final contents must be identical. Beyond the property's precondition (a statement whose dirty set EXCEEDS the capacity) one more thing is judged, on as many further runs: the statement may be refused with 'cache is full', but if it reports success its effects have to be there - every row of an accepted UPDATE changed, of an accepted DELETE gone, of an accepted INSERT present - immediately and after flush + reload. Distinct = (workload, capacity); non-trivial = the small run re-read at least 1000 pages from the file."
+	c.Rule = "seeded workloads over 2-4 tables of 200-500 rows (quick) / 300-2000 rows (thorough) (inserts <= 40 rows, updates/deletes over <= 12 consecutive keys - in one workload in four also over 150-320 consecutive keys, changing 40-80 pages in one statement -, full scans, filtered scans, catalog scans), dirty pages flushed after every statement; run once with the default cache (10000 pages), measuring the largest per-statement dirty set and the tree height, then with small capacities chosen above that dirty set (precondition of the property guaranteed by construction); every statement outcome, every SELECT result (with row ids) and the final contents must be identical. Beyond the property's precondition (a statement whose dirty set EXCEEDS the capacity) one more thing is judged, on as many further runs: the statement may be refused with 'cache is full', but if it reports success its effects have to be there - every row of an accepted UPDATE changed, of an accepted DELETE gone, of an accepted INSERT present - immediately and after flush + reload. Distinct = (workload, capacity); non-trivial = the small run re-read at least 1000 pages from the file."
 	c.Assume = []string{"the default-capacity run is the reference; its own correctness is C01's business"}
 	drv := mustDriver(c, false)
 	n := 24
